@@ -47,7 +47,8 @@ type UISpec struct {
 type Plan struct {
 	Machine     string `json:"machine"` // recipient | identity | identity-as-recipient
 	Name        string `json:"name"`
-	NStanzas    int    `json:"n_stanzas"` // identity machine: stanzas handed to Unwrap
+	NStanzas    int    `json:"n_stanzas"`       // identity machine: stanzas handed to Unwrap
+	Shape       int    `json:"shape,omitempty"` // identity machine: two bits per stanza choose its arguments: 0 two, 1 none at all, 2 one, 3 five
 	Msgs        []PMsg `json:"msgs"`
 	DeathAt     int    `json:"death_at"`  // -1: peer lives; k: dies before delivering message k (k == len(msgs): after all)
 	DeathCut    int    `json:"death_cut"` // >0: delivers this many bytes of message death_at, then dies
@@ -208,6 +209,10 @@ func (Engine) Generate(r *core.RNG, tier string, idx uint64) interface{} {
 	p.Machine = []string{"recipient", "identity", "identity", "identity-as-recipient", "identity-in-decrypt"}[r.Intn(5)]
 	p.Name = []string{"sim", "yubi-key", "a.b_c+d", "x"}[r.Intn(4)]
 	p.NStanzas = r.Range(1, 3)
+	if r.Chance(1, 3) {
+		p.NStanzas = r.Range(2, 4)
+		p.Shape = r.Intn(256)
+	}
 	p.UI = UISpec{Display: []string{"nil", "err", "ok"}[r.Intn(3)], Request: []string{"nil", "err", "val"}[r.Intn(3)],
 		Confirm: []string{"nil", "err", "yes", "no"}[r.Intn(4)], WaitTimer: r.Bool()}
 	mach := p.Machine
@@ -280,6 +285,11 @@ func (Engine) Shrinks(plan interface{}) []interface{} {
 	if p.Coalesce != 0 {
 		q := cp()
 		q.Coalesce = 0
+		out = append(out, q)
+	}
+	if p.Shape != 0 {
+		q := cp()
+		q.Shape = 0
 		out = append(out, q)
 	}
 	if p.NStanzas > 1 {
@@ -723,7 +733,16 @@ func (en Engine) converse(p0 *Plan, c *core.Ctx) (verdict *core.Verdict) {
 	data := core.Pattern(5, 20)
 	var inStanzas []*age.Stanza
 	for i := 0; i < p.NStanzas; i++ {
-		inStanzas = append(inStanzas, &age.Stanza{Type: fmt.Sprintf("t%d", i), Args: []string{"arg", fmt.Sprint(i)}, Body: core.Pattern(uint64(i)+40, []int{0, 32, 48, 100}[i%4])})
+		st := &age.Stanza{Type: fmt.Sprintf("t%d", i), Args: []string{"arg", fmt.Sprint(i)}, Body: core.Pattern(uint64(i)+40, []int{0, 32, 48, 100}[i%4])}
+		switch (p.Shape >> (2 * uint(i))) & 3 {
+		case 1:
+			st.Args = nil
+		case 2:
+			st.Args = []string{fmt.Sprintf("only%d", i)}
+		case 3:
+			st.Args = []string{"a", "b", "c", "d", fmt.Sprint(i)}
+		}
+		inStanzas = append(inStanzas, st)
 	}
 	recEnc := ref.Bech32Encode("age1"+p.Name, data)
 	idEnc := strings.ToUpper(ref.Bech32Encode("AGE-PLUGIN-"+strings.ToUpper(p.Name)+"-", data))
@@ -797,7 +816,7 @@ func (en Engine) converse(p0 *Plan, c *core.Ctx) (verdict *core.Verdict) {
 	if n := atomic.LoadInt32(&timerFired); n > 0 {
 		c.Stats.Add("probe.wait_timer_fired", int64(n))
 	}
-	skeleton := fmt.Sprintf("%s|%+v|%d|%d|%v|", p.Machine, p.UI, p.DeathAt, p.DeathCut, p.DeadAtStart)
+	skeleton := fmt.Sprintf("%s|%+v|%d|%d|%v|%d|", p.Machine, p.UI, p.DeathAt, p.DeathCut, p.DeadAtStart, p.Shape)
 	for _, m := range p.Msgs {
 		args := append([]string(nil), m.Args...)
 		for i, a := range args {
